@@ -2,4 +2,4 @@ From Tetl Require Import Lib.Base C02.Model.
 Require Extraction.
 Require Import ExtrOcamlBasic.
 Extraction Language OCaml.
-Extraction "C02_model.ml" wire_anchor size_member read_poisoned default_size.
+Extraction "C02_model.ml" wire_anchor members read_poisoned default_obs default_obs_poisoned empty_state default_size all_objs.
